@@ -183,7 +183,7 @@ func c20Tier(tier string) (L, exh, random int) {
 	if tier == "thorough" {
 		return 5, cnt(5), 3000000
 	}
-	return 4, cnt(4), 30000
+	return 4, cnt(4), 200000
 }
 
 // c20Chain builds chain number h: links over {AND,OR,NOT,LIST,BASIC}x{plain,paren}, ending in a leaf / Condition / 2-element stack.
